@@ -1,18 +1,41 @@
 (* C07, transform pass and formatters.
    Transform pass: implicit tag, attribute merge, lorem header, xsl and label cannot fail BY CONSTRUCTION
    (`transform_node_pre` returns a plain value); the BEM addon (model/MarkupBem.v) has two explicit raise
-   sites (update_class on a node without attributes: TypeError; cl[0]: IndexError), so `transform_list`
+   sites (update_class on a node without attributes: TypeError; cl[0]: IndexError), so `transform_forest`
    returns `res` -- and is PROVED to return Ok for every configuration (bem.enabled included, every
    separator, every context) and every tree: proofs/BemProofs.v, cited below.
+   The lorem text generator (model/MarkupLorem.v; the drawing pass lorem_fill in front of transform_forest) has
+   explicit raise sites (index out of range, randint on an empty range, ''[-1]) and consumes the oracle stream of
+   the configuration: PROVED to return a forest or to run out of draws, never Internal, for every tree and every
+   stream (proofs/LoremProofs.v, proofs/LoremFill.v).
    Formatters: `stringify_markup` (html / haml / pug / slim, comments, JSX attribute renaming, context)
    returns `fstate`, no `res`, no fuel: every list access is a pattern match with an explicit empty case that
    mirrors a guard of the Python code (the correspondence run compares the whole pipeline, formatter
    included, with the implementation). *)
 From Emmet Require Import lib.Base model.MarkupConvert model.MarkupResolve model.OutStream model.FormatHtml
-     model.FormatIndent model.MarkupExpand proofs.BemProofs.
+     model.FormatIndent model.MarkupExpand model.MarkupLorem proofs.BemProofs proofs.LoremProofs proofs.LoremFill.
 
-Lemma transform_total : forall cfg l, exists r, transform_list cfg l = Ok r.
-Proof. exact transform_list_ok. Qed.
+Lemma transform_forest_total : forall cfg l, exists r, transform_forest cfg l = Ok r.
+Proof. exact transform_forest_ok. Qed.
+
+(* walk(abbr, transform, config) with the lorem draws: a forest, or OutOfFuel exactly when the oracle stream of the
+   configuration ran out inside the lorem pass *)
+Lemma transform_total : forall cfg l,
+  match transform_list cfg l with
+  | Ok _ => True
+  | OutOfFuel => lorem_fill_list l (mc_draws cfg) = LExhausted
+  | ParseErr _ _ => False
+  | Internal _ => False
+  end.
+Proof.
+  intros cfg l. unfold transform_list. pose proof (lorem_fill_safe (mc_draws cfg) l) as H.
+  destruct (lorem_fill (mc_draws cfg) l) as [filled| | |]; cbn [bind]; try exact H.
+  destruct (transform_forest_ok cfg filled) as [t ->]. exact I.
+Qed.
+
+(* without a lorem header in the forest the oracle is not consulted: total as before *)
+Lemma transform_total_free : forall cfg l, forallb lorem_free l = true -> exists r, transform_list cfg l = Ok r.
+Proof. intros cfg l H. rewrite (transform_list_free cfg l H). apply transform_forest_ok. Qed.
 
 Lemma format_total : forall syntax o tree, exists st, stringify_markup syntax o tree = st.
 Proof. intros. eexists. reflexivity. Qed.
